@@ -52,15 +52,15 @@ def negation_inside_group_after_negation(text):
 
 
 def star_before_star_group(nodes):
-    """AST predicate: a `*` immediately followed by a `*( ... )` group: wcmatch reads `**(x)` as `*` + literal `(x)`."""
-    for a, b in zip(nodes, nodes[1:]):
-        if a[0] == 'star' and b[0] == 'grp' and b[1] == '*':
-            return True
-    for n in nodes:
-        if n[0] == 'grp' and any(star_before_star_group(alt) for alt in n[2]):
-            return True
-        if n[0] == 'neg' and any(star_before_star_group(alt) for alt in n[1]):
-            return True
+    """AST predicate: a `*` standing at the START of the name / segment (also: at the start of an alternative of a group that stands
+    there) and immediately followed by a `*( ... )` group: wcmatch's duplicate-star consumption at the start reads `**(x)` as `*` +
+    literal `(x)`.  Anywhere else (`a**(x)`) the group is parsed correctly and is not part of the listed finding."""
+    if len(nodes) >= 2 and nodes[0][0] == 'star' and nodes[1][0] == 'grp' and nodes[1][1] == '*':
+        return True
+    if nodes and nodes[0][0] == 'grp':
+        return any(star_before_star_group(alt) for alt in nodes[0][2])
+    if nodes and nodes[0][0] == 'neg':
+        return any(star_before_star_group(alt) for alt in nodes[0][1])
     return False
 
 
@@ -132,7 +132,8 @@ def _nullable(nodes):
 
 
 def pat_nullable_segment(mode, ast, fi):
-    return mode == 'gl' and any(it[0] == 'seg' and it[1] and it[1][0][0] in ('grp', 'neg') and _nullable(it[1]) for it in ast)
+    # only segments that START with a nullable ?( *( @(|..) group: a segment starting with !( carries its own non-empty guard
+    return mode == 'gl' and any(it[0] == 'seg' and it[1] and it[1][0][0] == 'grp' and _nullable(it[1]) for it in ast)
 
 
 def name_matched_through_empty_segment(sym, mode, ast, fi):
@@ -153,9 +154,36 @@ def pat_is_path(mode, ast, fi):
     return mode == 'gl'
 
 
+def _has_globstar_unit(ast, fi):
+    if fi.get('matchbase'):
+        return True           # implicit globstar prefix
+    for it in ast:
+        n = 0
+        if it[0] == 'gs':
+            n = it[1]
+        elif it[0] == 'seg' and it[1] and all(x[0] == 'star' for x in it[1]):
+            n = sum(x[1] for x in it[1])
+        if n >= 2 and (fi.get('globstar') or fi.get('globstarlong')):
+            return True
+    return False
+
+
 def name_ends_with_newline(sym, mode, ast, fi):
+    """Footprint of the `$` that also matches before a trailing newline: with a globstar in the pattern (_GLOBSTAR_DIV) any path ending in
+    a newline; otherwise (_NO_DIR guard only) just the paths whose last segment is `.` or `..` followed by that newline."""
     import z3
-    return z3.Or(*[z3.And(sym.len_eq(L), sym.c[L - 1] == sym.cv(10)) for L in range(1, sym.N + 1)])
+    nl = [z3.And(sym.len_eq(L), sym.c[L - 1] == sym.cv(10)) for L in range(1, sym.N + 1)]
+    if _has_globstar_unit(ast, fi) or fi.get('nodir'):
+        return z3.Or(*nl)
+    alts = []
+    for L in range(2, sym.N + 1):
+        for k in (1, 2):                       # k dots before the final newline, at a segment start
+            if L - 1 - k < 0:
+                continue
+            dots = [sym.c[L - 1 - j] == sym.cv(46) for j in range(1, k + 1)]
+            start = sym.c[L - 2 - k] == sym.cv(47) if L - 2 - k >= 0 else z3.BoolVal(True)
+            alts.append(z3.And(sym.len_eq(L), sym.c[L - 1] == sym.cv(10), start, *dots))
+    return z3.Or(*alts)
 
 
 SPEC_REGIONS += [
